@@ -31,10 +31,11 @@
 (*     references in some enumeration order, the loader's work-list loop,  *)
 (*     the root initialisation, the evaluation loop.                       *)
 (*                                                                         *)
-(* The object itself is abstract but order sensitive: a log of the applied *)
-(* changes (the thread / patch timeline) and a last-writer field (the      *)
-(* title).  The conformance harness realises it with real issues and       *)
-(* patches (harness/src/cobworld.rs).                                      *)
+(* The object itself is abstract but order sensitive, and exposes what the *)
+(* real projection exposes: the list of applied operations (patch          *)
+(* timeline), the thread timeline, the comments, and two last-writer       *)
+(* fields (title, labels).  The conformance harness realises it with real  *)
+(* issues and patches (harness/src/cobworld.rs).                           *)
 (***************************************************************************)
 EXTENDS Integers, FiniteSets, Sequences, TLC
 
@@ -44,6 +45,10 @@ CONSTANTS
                 \*        behaviour of Issue::op / Patch::op after the fix);
                 \* FALSE: the actions are applied in place, those preceding the refused one stay
                 \*        (Issue::op / Patch::op / Identity::op as found).
+    SingleInPlace,
+                \* FALSE: every change is applied on a copy of the state (as the code does);
+                \* TRUE : deviation -- a change carrying exactly one action is applied in place
+                \*        (a "fast path"): whatever that action did before it was refused stays.
     DropDetached
                 \* TRUE : changes that do not descend from the root (a change commit without parent
                 \*        changes that is not the root, and everything built on one) are dropped
@@ -54,9 +59,9 @@ CONSTANTS
 Root == 0
 None == -1      \* "no reference"
 \* "nothing evaluated (since the references last moved)"
-NoView == [log |-> <<>>, lww |-> None, hist |-> {}, tips |-> {}]
+NoView == [applied |-> <<>>, log |-> <<>>, comments |-> <<>>, lww |-> None, labels |-> None, hist |-> {}, tips |-> {}]
 \* the answer when the root of the object is not among the loaded changes
-MissingRootView == [log |-> <<>>, lww |-> -2, hist |-> {}, tips |-> {}]
+MissingRootView == [applied |-> <<>>, log |-> <<>>, comments |-> <<>>, lww |-> -2, labels |-> -2, hist |-> {}, tips |-> {}]
 
 -----------------------------------------------------------------------------
 (* Change graphs.                                                           *)
@@ -145,39 +150,89 @@ EvalOrder(G) ==
 -----------------------------------------------------------------------------
 (* The abstract object and the application of one change.                   *)
 (*                                                                          *)
+(* The object exposes what the real projection of an issue / patch exposes: *)
+(*   applied   every applied change, in order (Patch.timeline: one entry    *)
+(*             per operation);                                              *)
+(*   timeline  entries of the discussion thread (Thread::timeline): one per *)
+(*             change that touched the thread;                              *)
+(*   comments  the comments, in thread order;                               *)
+(*   lww       the title (last writer);                                     *)
+(*   labels    the label set (last writer).                                 *)
+(*                                                                          *)
 (* classes (what the harness writes for each is in cobworld.rs):            *)
-(*   ok          delegate: comment + title edit     -> log entry, last writer*)
-(*   guest       non-delegate: comment              -> log entry             *)
-(*   needs       reply to the comment of change tgt -> log entry if tgt has  *)
-(*               been applied, refused otherwise (state dependent validity)  *)
-(*   badSig      signature does not verify          -> refused before apply  *)
-(*   rejectFirst single refused action              -> refused               *)
-(*   rejectLater several actions, a later one refused (bad title, missing    *)
-(*               comment, unauthorised) after earlier ones were applied      *)
-(*   soft        (identity objects) an action answering `UnexpectedState`:   *)
-(*               refused when the change has no concurrent change in the     *)
-(*               graph, silently ignored -- the change stays, with a timeline*)
-(*               entry -- when it has (Identity::op)                         *)
+(*   ok          delegate: comment + title edit                             *)
+(*   guest       non-delegate: comment                                      *)
+(*   label       delegate: sets the labels (no thread entry)                *)
+(*   needs       reply to the comment of change tgt: valid if tgt's comment *)
+(*               exists, refused otherwise (state dependent validity)       *)
+(*   badSig      signature does not verify          -> refused before apply *)
+(*   rf.<cause>.<d|g>  a single refused action, by a delegate (d) or a      *)
+(*               non-delegate (g) author; the causes and where the real     *)
+(*               code refuses them (Issue::authorization, then the action): *)
+(*      redactMissing  redact a comment that does not exist                 *)
+(*                     d: authorised as delegate, thread::redact refuses    *)
+(*                     g: authorization itself fails on the missing comment *)
+(*      editMissing    edit a comment that does not exist (non-empty body)  *)
+(*                     d: authorised as delegate; thread::edit pushes the   *)
+(*                        timeline entry FIRST and then refuses             *)
+(*                     g: authorization fails on the missing comment        *)
+(*      reactMissing   react to a comment that does not exist               *)
+(*                     d, g: allowed for all, thread::react refuses         *)
+(*      replyMissing   comment replying to a comment that does not exist    *)
+(*                     d, g: allowed for all, thread::comment refuses       *)
+(*      badTitle       title with a line break                              *)
+(*                     d: authorised, the action refuses; g: not authorised *)
+(*      label          labelling: g: not authorised (d: see class "label")  *)
+(*   rejectLater several actions (comment, title, label, ...), a later one  *)
+(*               refused after the earlier ones were applied                *)
+(*   soft        (identity objects) an action answering `UnexpectedState`:  *)
+(*               refused when the change has no concurrent change in the    *)
+(*               graph, silently ignored -- the change stays, with a        *)
+(*               timeline entry -- when it has (Identity::op)               *)
 
-InitObj == [log |-> <<>>, lww |-> Root]
-Applied(obj) == Range(obj.log)
+RFTable ==
+    { [cls |-> "rf.redactMissing.d", cause |-> "redactMissing", role |-> "delegate"],
+      [cls |-> "rf.redactMissing.g", cause |-> "redactMissing", role |-> "guest"],
+      [cls |-> "rf.editMissing.d",   cause |-> "editMissing",   role |-> "delegate"],
+      [cls |-> "rf.editMissing.g",   cause |-> "editMissing",   role |-> "guest"],
+      [cls |-> "rf.reactMissing.d",  cause |-> "reactMissing",  role |-> "delegate"],
+      [cls |-> "rf.reactMissing.g",  cause |-> "reactMissing",  role |-> "guest"],
+      [cls |-> "rf.replyMissing.d",  cause |-> "replyMissing",  role |-> "delegate"],
+      [cls |-> "rf.replyMissing.g",  cause |-> "replyMissing",  role |-> "guest"],
+      [cls |-> "rf.badTitle.d",      cause |-> "badTitle",      role |-> "delegate"],
+      [cls |-> "rf.badTitle.g",      cause |-> "badTitle",      role |-> "guest"],
+      [cls |-> "rf.label.g",         cause |-> "label",         role |-> "guest"] }
+RFClasses == {r.cls : r \in RFTable}
+RFOf(cl) == CHOOSE r \in RFTable : r.cls = cl
+
+InitObj == [applied |-> <<>>, timeline |-> <<>>, comments |-> <<>>, lww |-> Root, labels |-> Root]
+Applied(obj) == Range(obj.applied)
+
+\* Classes whose application adds an entry to the discussion thread.
+ThreadClasses == {"ok", "guest", "needs", "soft"}
 
 Apply(G, obj, c, sib) ==
     LET cl      == G.cls[c]
-        full    == [log |-> Append(obj.log, c), lww |-> c]
-        logonly == [obj EXCEPT !.log = Append(@, c)]
+        comment == [obj EXCEPT !.applied = Append(@, c), !.timeline = Append(@, c), !.comments = Append(@, c)]
+        full    == [comment EXCEPT !.lww = c]
+        \* what the first actions of a rejectLater change do: comment, title, label
+        partial == [full EXCEPT !.labels = c]
+        \* what a refused single action has done to the state when it is refused (applied in place)
+        residue == IF RFOf(cl).cause = "editMissing" /\ RFOf(cl).role = "delegate"
+                   THEN [obj EXCEPT !.timeline = Append(@, c)] ELSE obj
         Ok(o)   == [ok |-> TRUE, obj |-> o]
         No(o)   == [ok |-> FALSE, obj |-> o]
     IN CASE cl = "ok"          -> Ok(full)
-         [] cl = "guest"       -> Ok(logonly)
-         [] cl = "needs"       -> IF G.tgt[c] \in Applied(obj) THEN Ok(logonly) ELSE No(obj)
+         [] cl = "guest"       -> Ok(comment)
+         [] cl = "label"       -> Ok([obj EXCEPT !.applied = Append(@, c), !.labels = c])
+         [] cl = "needs"       -> IF G.tgt[c] \in Range(obj.comments) THEN Ok(comment) ELSE No(obj)
          [] cl = "badSig"      -> No(obj)
-         [] cl = "rejectFirst" -> No(obj)
-         [] cl = "rejectLater" -> No(IF Atomic THEN obj ELSE full)
-         [] cl = "soft"        -> IF sib = {} THEN No(obj) ELSE Ok(logonly)
+         [] cl \in RFClasses   -> No(IF SingleInPlace THEN residue ELSE obj)
+         [] cl = "rejectLater" -> No(IF Atomic THEN obj ELSE partial)
+         [] cl = "soft"        -> IF sib = {} THEN No(obj) ELSE Ok(comment)
 
 \* Classes refused in every state, and the changes that are invalid whatever the state.
-AlwaysInvalid == {"badSig", "rejectFirst", "rejectLater"}
+AlwaysInvalid == {"badSig", "rejectLater"} \cup RFClasses
 InvalidIn(G) == {c \in NonRootOf(G) : G.cls[c] \in AlwaysInvalid} \cup DetachedRoots(G)
 
 (* The loop of Dag::prune_by: the order is computed once, up front; a node  *)
@@ -202,7 +257,12 @@ Eval(G) ==
     IN Run(H, EvalOrder(H), InitObj, IF DropDetached THEN DetachedRoots(G) ELSE {})
 
 \* What `cob::get` returns, projected: the object, the history and its tips.
-ViewOf(e) == [log |-> e.obj.log, lww |-> e.obj.lww, hist |-> e.graph.nodes, tips |-> Tips(e.graph)]
+ViewRec(o, g) == [applied |-> o.applied, log |-> o.timeline, comments |-> o.comments, lww |-> o.lww,
+                  labels |-> o.labels, hist |-> g.nodes, tips |-> Tips(g)]
+ViewOf(e) == ViewRec(e.obj, e.graph)
+\* ... the part of it that an issue exposes (`applied` is the timeline of a patch)
+Observable(v) == [log |-> v.log, comments |-> v.comments, lww |-> v.lww, labels |-> v.labels,
+                  hist |-> v.hist, tips |-> v.tips]
 View(G) == ViewOf(Eval(G))
 Pruned(G) == G.nodes \ Eval(G).graph.nodes
 
@@ -309,7 +369,7 @@ Step ==
 
 Finish ==
     /\ pc = "walk" /\ queue = <<>>
-    /\ result' = [log |-> obj.log, lww |-> obj.lww, hist |-> graph.nodes, tips |-> Tips(graph)]
+    /\ result' = ViewRec(obj, graph)
     /\ pc' = "idle"
     /\ UNCHANGED <<store, refs, stack, seen, edges, graph, queue, obj>>
 
@@ -335,7 +395,10 @@ C05_GetIsFunctionOfClosure ==
 
 \* While evaluating: the object only ever contains effects of changes still in the graph.
 WalkNoTrace ==
-    (pc = "walk" /\ Atomic) => (Applied(obj) \subseteq graph.nodes /\ obj.lww \in graph.nodes)
+    (pc = "walk" /\ Atomic /\ ~SingleInPlace) =>
+        /\ Applied(obj) \subseteq graph.nodes /\ Range(obj.timeline) \subseteq graph.nodes
+        /\ Range(obj.comments) \subseteq graph.nodes
+        /\ obj.lww \in graph.nodes /\ obj.labels \in graph.nodes
 
 -----------------------------------------------------------------------------
 (* Theorems about the function View, stated for one graph G (TLC evaluates  *)
@@ -373,13 +436,22 @@ C06_PrunedIsRejectedUpClosure(G, e) ==
 \* changes were removed: same object, same history, same tips.
 C06_NoTrace(G, e) == ViewOf(e) = View(Restrict(G, e.graph.nodes))
 
-\* ... and, more directly, nothing of a dropped change is visible in the object: the log consists
-\* of the surviving changes (each once) in evaluation order, the last writer is a surviving change.
+\* ... and, more directly, nothing of a dropped change is visible in the object: it shows the
+\* surviving changes (each once) in evaluation order -- in the list of applied operations, in
+\* the thread timeline, in the comments -- and title and labels were written by surviving changes.
+LastOf(G, seq, classes) ==
+    LET idx == {i \in DOMAIN seq : G.cls[seq[i]] \in classes}
+    IN IF idx = {} THEN Root ELSE seq[CHOOSE i \in idx : \A j \in idx : j <= i]
+
 C06_NoEffect(G, e) ==
-    LET v == ViewOf(e) IN
-    /\ IsPermutationOf(v.log, v.hist \ {Root})
-    /\ v.lww \in v.hist
-    /\ v.log = Filter(EvalOrder(EvalGraph(G)), v.hist)
+    LET v == ViewOf(e)
+        thread == {c \in v.hist \ {Root} : G.cls[c] \in ThreadClasses}
+    IN /\ IsPermutationOf(v.applied, v.hist \ {Root})
+       /\ v.applied = Filter(EvalOrder(EvalGraph(G)), v.hist)
+       /\ v.log = Filter(v.applied, thread)
+       /\ v.comments = v.log
+       /\ v.lww = LastOf(G, v.applied, {"ok"})
+       /\ v.labels = LastOf(G, v.applied, {"label"})
 
 \* C05 for the function: loading through any reference assignment with the same reachable
 \* closure gives the same view.
@@ -396,23 +468,28 @@ DownSets(G) == {S \in SUBSET G.nodes : Root \in S /\ DownClosed(G, S)}
 (* the last surviving writer.  The transcribed algorithm must stay within it (AlgWithinStatement)*)
 (* and so must every answer recorded from the implementation (TraceCob.tla).                    *)
 StateDependent == {"needs", "soft"}
-LastOk(G, log) ==
-    LET idx == {i \in DOMAIN log : G.cls[log[i]] = "ok"}
-    IN IF idx = {} THEN Root ELSE log[CHOOSE i \in idx : \A j \in idx : j <= i]
 
 Allowed(G, v) ==
+    LET thread == {c \in v.hist \ {Root} : G.cls[c] \in ThreadClasses}
+        labels == {c \in v.hist \ {Root} : G.cls[c] = "label"}
+    IN
     /\ Root \in v.hist /\ v.hist \subseteq G.nodes /\ DownClosed(G, v.hist)
     /\ v.hist \cap InvalidIn(G) = {}
     /\ (\A c \in NonRootOf(G) : G.cls[c] \notin StateDependent)
           => v.hist = G.nodes \ UpClosure(G, InvalidIn(G))
     /\ v.tips = Tips(Restrict(G, v.hist))
-    /\ IsPermutationOf(v.log, v.hist \ {Root})
-    /\ \A c \in v.hist \ {Root} :
-          /\ \A d \in Deps(G, c) \ {Root} : Pos(v.log, d) < Pos(v.log, c)
-          /\ G.cls[c] = "needs" => (G.tgt[c] \in v.hist \ {Root} /\ Pos(v.log, G.tgt[c]) < Pos(v.log, c))
-    /\ v.lww = LastOk(G, v.log)
+    \* the thread shows exactly the surviving thread-touching changes, dependencies first ...
+    /\ IsPermutationOf(v.log, thread)
+    /\ v.comments = v.log
+    /\ \A c \in thread :
+          /\ \A d \in Anc(G, c) \cap thread : Pos(v.log, d) < Pos(v.log, c)
+          /\ G.cls[c] = "needs" => (G.tgt[c] \in thread /\ Pos(v.log, G.tgt[c]) < Pos(v.log, c))
+    \* ... title and labels are those of a last surviving writer
+    /\ v.lww = LastOf(G, v.log, {"ok"})
+    /\ IF labels = {} THEN v.labels = Root
+       ELSE v.labels \in {c \in labels : Desc(G, c) \cap labels = {}}
 
-AlgWithinStatement(G, e) == Allowed(G, ViewOf(e))
+AlgWithinStatement(G, e) == Allowed(G, Observable(ViewOf(e)))
 
 \* The theorems about one change set H (what a replica holds: closed under dependencies).
 TheoremsAt(H) ==
